@@ -82,6 +82,17 @@ func getPool() []*pooled {
 		for i := 0; i < 3; i++ {
 			add(150000+i, "large", false)
 		}
+		// twins: bundles of identical encoded size (RSA signatures have a fixed length, ECDSA ones do
+		// not), so that consecutive stores cannot be told apart by file size
+		rsaCA := pki.Mint(pki.Spec{Subject: pki.DefaultLeafSubject("c14 rsa ca"), NotBefore: now.Add(-24 * time.Hour), NotAfter: now.Add(24 * time.Hour),
+			IsCA: true, PathLen: 0, CRLSign: true, Key: pki.Key("RSA-2048", 0)}, nil)
+		for i := 0; i < 8; i++ {
+			id := len(pool)
+			b := &corecrl.Bundle{BaseCRL: pki.CRL(rsaCA, int64(7000+id), now.Add(-time.Hour), now.Add(48*time.Hour), 3, nil)}
+			p := &pooled{id: id, bundle: b, hash: hashBundle(b), size: "twin"}
+			pool = append(pool, p)
+			byHash[p.hash] = p
+		}
 		for i := 0; i < 96; i++ { // more small bundles so that free-running writers rarely repeat a value
 			add(i%40, "small", i%5 == 0)
 		}
